@@ -823,7 +823,12 @@ static void c01_enc_gen(Rng &rng, Plan &plan, bool thorough)
 	uint32_t preset = (uint32_t)rng.below(thorough ? 10 : 7);
 	if (rng.chance(200)) preset |= LZMA_PRESET_EXTREME;
 	plan.setp("preset", preset);
-	if (kind == EK_STREAM_MT) { gen_mt_opts(rng, plan, (size_t)plan.p("in_len")); plan.setp("preset", preset); }
+	if (kind == EK_STREAM_MT) {
+		gen_mt_opts(rng, plan, (size_t)plan.p("in_len"));
+		// every Block sets up a whole encoder: with the big presets that is seconds per Block under the sanitizers
+		if (plan.p("in_len") / std::max<int64_t>(1, plan.p("block_size")) > 12 && (preset & 0x1F) > 5) preset = (preset & ~0x1Fu) | 5;
+		plan.setp("preset", preset);
+	}
 	// the H1 knob: normalisation of the match finder within the input
 	if (rng.chance(600)) plan.setp("mf_norm_after", rng.range(1, (int64_t)plan.p("in_len") + 2));
 	plan.setp("check_determinism", rng.chance(250) ? 1 : 0);
